@@ -867,6 +867,23 @@ func checkResliced(c *C13Case, st *Stats) error {
 		return errf("a repaired native source converts to %s / %s, expected %s / %s", gotM.Show(), gotL2.Show(), wantM.Show(), VList(wantM, wantInner).Show())
 	}
 	st.Count("repaired_source")
+	// Go slices spread into variadic calls are sources too: the library must leave them as they are
+	elems := []any{1, "two", []any{3.5, nil}, map[string]any{"k": true}, at.NewList(9)}
+	pairs := []any{"a", 1, "b", []any{"x"}, "c", map[string]any{"d": nil}}
+	keepE, keepP := fmt.Sprintf("%#v", elems[:4]), fmt.Sprintf("%#v", pairs)
+	p, panicked = catch(func() {
+		at.NewList(elems...)
+		at.NewList().Add(elems...)
+		at.NewObject(pairs...)
+		at.NewObject().Set(pairs...)
+	})
+	if panicked {
+		return errf("building containers from spread slices panicked: %v", p)
+	}
+	if gotE, gotP := fmt.Sprintf("%#v", elems[:4]), fmt.Sprintf("%#v", pairs); gotE != keepE || gotP != keepP {
+		return errf("a Go slice spread into NewList/Add/NewObject/Set was modified by the call: %s -> %s, %s -> %s", keepE, gotE, keepP, gotP)
+	}
+	st.Count("spread_slices_untouched")
 	return nil
 }
 
